@@ -44,6 +44,7 @@ func TestDriveC08(t *testing.T) {
 		kind := kinds[i%len(kinds)]
 		win := []int{1, 1, 2, 3, 5, 10, 10, 25, 50}[r.Intn(9)]
 		configuration.CurrentConfig.TempRollingWindowSize = win
+		configuration.CurrentConfig.RpmRollingWindowSize = 2*win + 3 // (independent option, always different)
 		id := uniq("c8s")
 		sub := filepath.Join(dir, id)
 		must(os.MkdirAll(sub, 0755))
